@@ -7,7 +7,7 @@ for d in seeded/*/; do
   # a change that a later repair of /repo made harmless (its own demonstration passes with it)
   sup=$(python3 -c "import json;print(json.load(open('seeded/$d/meta.json')).get('superseded_by',''))")
   if [ -n "$sup" ]; then echo "$d $prop SKIP: harmless since repair $sup (see meta.json)"; continue; fi
-  out=$(tools/seeded-run.sh $d $prop quick 2>&1); echo "$out" | head -1
+  out=$(tools/seeded-run.sh $d $prop quick 2>/dev/null); echo "$out" | head -1
   echo "$out" | head -1 | grep -q "rc=1" || fail=1
 done
 rm -rf sim/target-alt
